@@ -4,13 +4,15 @@
 -/
 import GoSecs.Drv.Secs2
 import GoSecs.Drv.Supervisor
+import GoSecs.Drv.Hsms
 
 open GoSecs
 
 /-- One handler per model; each returns `none` for commands it does not own. -/
 def handlers : List (String → List String → Option String) := [
   Drv.Secs2.handle,
-  Drv.Supervisor.handle
+  Drv.Supervisor.handle,
+  Drv.Hsms.handle
 ]
 
 def dispatch (line : String) : String :=
